@@ -144,6 +144,7 @@ package mem
 //@                        t.store.records[path].(fileRecord).store == t.store && t.store.records[path].(fileRecord).path == path &&
 //@                        t.store.records[path].(fileRecord).mode == old(keyvalue.srcMode(src)) &&
 //@                        t.store.records[path].(fileRecord).modTime == old(keyvalue.srcMTime(src)))
+//@   ensures "handler-error-recorded" [C18 C14] implies(!old(cancelled(t.ctx)) && (src == nil || old(srcDataErr(src)) == nil), t.results[id].Err == old(hErr(t, handler, t.op, nil, nil)))   // an accepted Set whose handler fails is a failed operation (found by the mutation sweep)
 //@   ensures "inv" txnInv(t) && implies(old(cancelled(t.ctx)), cancelled(t.ctx))
 //@   ensures "noop-handler" implies(isType(handler, keyvalue.OpHandlerFunc) && noopfn(payload(handler)),
 //@                        cancelled(t.ctx) == old(cancelled(t.ctx)) && t.released == old(t.released) && held(t.store.mu) == old(held(t.store.mu)) &&
